@@ -276,6 +276,21 @@ def run(chk):
         s = cat.scenario(d, mcv, ([(0, "OHx", ohx())], [], opts), payload=pl)
         s.gid = {}
         unl.append((d, mcv, kind, s))
+        # ... and dressed as each listed event of its category that takes arguments (same payload shape, jumbo
+        # included): a handler that looks at the payload or the jumbo flag before the value byte must still refuse it
+        if kind == "unlisted":
+            shapes = []
+            for (d2, m2), sig in sorted(cat.sig.items()):
+                if d2 == d and m2[:2] == mcv[:2]:
+                    sp = payload_of(sig)
+                    if len(sp) and not any(type(sp) is type(x) and bytes(sp) == bytes(x) for x in shapes):
+                        shapes.append(sp)
+            for k, sp in enumerate(shapes):
+                s2 = cat.scenario(d, mcv, ([(0, "OHx", ohx())], [], opts), payload=sp)
+                s2.gid = {}
+                s2.need_labels = set()
+                unl.append((d, mcv, kind, s2))
+                chk.count("probe:unlisted-dressed-as-listed-sibling" + (":jumbo" if isinstance(sp, Jumbo) else ""))
     chunk = 4000
     msgs = {}
     for i in range(0, len(unl), chunk):
